@@ -165,14 +165,10 @@ func (c *ChunkComposer) RunLoop(reader io.Reader, cb OnCompleteMessage) error {
 			}
 		}
 
-		var neededSize uint32
-		if stream.header.MsgLen <= c.peerChunkSize {
-			neededSize = stream.header.MsgLen
-		} else {
-			neededSize = stream.header.MsgLen - stream.msg.Len()
-			if neededSize > c.peerChunkSize {
-				neededSize = c.peerChunkSize
-			}
+		// 注意，peerChunkSize可能在一个message的多个chunk之间发生变化，所以始终要减去已经收到的部分
+		neededSize := stream.header.MsgLen - stream.msg.Len()
+		if neededSize > c.peerChunkSize {
+			neededSize = c.peerChunkSize
 		}
 
 		if _, err := io.ReadFull(reader, stream.msg.buff.ReserveBytes(int(neededSize))); err != nil {
